@@ -34,7 +34,7 @@ func checkC14(c *Ctx) {
 	}
 	// destinations
 	bad := ""
-	bps := core.CallsTo(f, byPattern)
+	bps := c.callsToDeep(f, 2, byPattern)
 	if len(bps) != 1 {
 		bad = fmt.Sprintf("%d ByPattern calls, want 1", len(bps))
 	} else if !(reachesParam(bps[0].Arg(0), f, pubIdx) && stringsContains(core.Term(bps[0].Arg(0)), ".Topic")) {
@@ -42,7 +42,7 @@ func checkC14(c *Ctx) {
 	}
 	var destMap ssa.Value
 	if bad == "" {
-		for _, b := range f.Blocks {
+		for _, b := range bps[0].Instr.Parent().Blocks {
 			for _, in := range b.Instrs {
 				if mu, ok := in.(*ssa.MapUpdate); ok {
 					if stringsContains(core.Term(mu.Key), ".Peer") && depReaches(mu.Key, func(v ssa.Value) bool { return v == bps[0].Value() }) {
@@ -62,7 +62,7 @@ func checkC14(c *Ctx) {
 	for _, l := range core.Loops(f) {
 		for _, in := range l.Header.Instrs {
 			if nx, ok := in.(*ssa.Next); ok {
-				if rg, ok := nx.Iter.(*ssa.Range); ok && destMap != nil && rg.X == destMap {
+				if rg, ok := nx.Iter.(*ssa.Range); ok && destMap != nil && sameOrReturned(rg.X, destMap) {
 					loop = l
 					if nx.Referrers() != nil {
 						for _, r := range *nx.Referrers() {
@@ -75,19 +75,25 @@ func checkC14(c *Ctx) {
 			}
 		}
 	}
-	sends := append(core.CallsTo(f, app), core.CallsTo(f, tcall)...)
+	sends := c.callsToDeep(f, 2, app, tcall)
 	bad = ""
 	if loop == nil {
 		bad = "the loop that writes to destinations does not range over the destination set"
 	} else {
 		for _, s := range sends {
-			if !loop.Blocks[s.Instr.Block()] {
+			at := c.liftTo(f, s.Instr)
+			if len(at) == 0 {
 				bad = "a log append / remote call happens outside the loop over the destination set"
+			}
+			for _, in := range at {
+				if !loop.Blocks[in.Block()] {
+					bad = "a log append / remote call happens outside the loop over the destination set"
+				}
 			}
 		}
 	}
 	if bad == "" {
-		paths, err := core.EnumPaths(f, core.PathOpts{Start: loop.Header, Stop: func(b *ssa.BasicBlock) bool { return b == loop.Header }})
+		paths, err := c.pathsInlined(f, core.PathOpts{Start: loop.Header, Stop: func(b *ssa.BasicBlock) bool { return b == loop.Header }}, isAny(app, tcall), nil)
 		if err != nil {
 			bad = err.Error()
 		} else {
